@@ -36,7 +36,7 @@ TWIN_FIX = sorted(k for k, v in _SURVEY.items() if v.get("opens") and (v.get("ce
 
 def gen(seed: int, tier: str, idx=None):
     rng0 = substream(seed, "swarm")
-    cfg = {"property": PROPERTY, "aspects": ["grid", "names", "look", "geom"], "profile": "geometry", "_mix": {"s": 2, "i": 2}, "_long": False}
+    cfg = {"property": PROPERTY, "aspects": ["grid", "names", "look", "geom"], "profile": "geometry", "_mix": {"s": 2, "i": 2}, "_long": False, "writes_in_bounds": True}
     cfg["live_geometry_after_save"] = substream(seed, "livegeom").random() < 0.5
     g = Gen(seed, tier, cfg)
     rng = g.rng
